@@ -685,11 +685,27 @@ class FuncAnalysis:
                 return V("angle")
             return TOP
         if a.only("epoch") or b.only("epoch"):
+            # operator table of class Epoch (read from Epoch.py; re-checked by C02's
+            # R-OPCONF): __add__/__radd__/__iadd__ with a number, __sub__/__isub__ with a
+            # number or an Epoch - nothing else
+            other = b if a.only("epoch") else a
+            bad = None
+            if not (numeric(other) or other.only("epoch")):
+                pass
+            elif k not in (ast.Add, ast.Sub):
+                bad = "class Epoch defines no `%s` operator" % OPSYM.get(k, k.__name__)
+            elif k is ast.Add and a.only("epoch") and b.only("epoch"):
+                bad = "Epoch + Epoch is rejected by Epoch.__add__"
+            elif k is ast.Sub and b.only("epoch") and not a.only("epoch") and numeric(a):
+                bad = "number - Epoch: class Epoch defines no __rsub__"
+            if bad is not None and node is not None:
+                self.event("optype", node, "this expression always raises TypeError: %s (operands: %s, %s)"
+                           % (bad, describe(a), describe(b)), "epoch-op:" + norm_text(node)[:80])
             if k is ast.Sub and a.only("epoch") and b.only("epoch"):
                 return V("num", origin="epoch difference (days)")
-            if k in (ast.Add, ast.Sub) and a.only("epoch"):
+            if k in (ast.Add, ast.Sub) and a.only("epoch") and numeric(b):
                 return V("epoch")
-            if k is ast.Add and b.only("epoch"):
+            if k is ast.Add and b.only("epoch") and numeric(a):
                 return V("epoch")
             return TOP
         ua, ub = unit_of(a), unit_of(b)
@@ -937,6 +953,9 @@ class FuncAnalysis:
                        "%s:%s:%s" % (name, sorted(bad)[0], norm_text(node.args[0])[:80]))
 
 
+OPSYM = {ast.Div: "/", ast.Mult: "*", ast.Mod: "%", ast.Pow: "**", ast.FloorDiv: "//"}
+
+
 def ListOf(el):
     return HomList(el)
 
@@ -996,6 +1015,6 @@ def small_int(v):
 
 
 def describe(v):
-    names = {"deg": "in degrees", "rad": "in radians", "ratio": "a trig ratio (dimensionless)",
+    names = {"deg": "in degrees", "rad": "in radians", "ratio": "a trig ratio (dimensionless)", "epoch": "an Epoch object",
              "angle": "an Angle object", "angle+": "an Angle object", "num": "a plain number", "lit": "a literal"}
     return " / ".join(names.get(a, a) for a in sorted(v.atoms))
